@@ -28,7 +28,7 @@ PROFILE = {"soil_switch_p": 0.8, "dz_p": 0.5, "calendar_crop_p": 0.4, "n_seasons
            "crops": None}
 
 LONG_CANOPY_WINDOW_CROPS = ["AlfalfaGDD", "Default", "HydWheatGDD", "Maize", "MaizeGDD", "Quinoa", "SorghumGDD", "SugarCane", "Sunflower",
-                            "SunflowerGDD"]
+                            "SunflowerGDD", "Cassava", "AlfalfaGDD", "SunflowerGDD", "Sunflower", "HydWheatGDD"]
 
 PROFILE_ARRAYS = ["Comp", "dz", "Layer", "dzsum", "th_fc", "th_s", "th_wp", "Ksat", "Penetrability", "th_dry", "tau", "zBot",
                   "z_top", "zMid", "th_fc_Adj", "aCR", "bCR"]
@@ -122,7 +122,7 @@ def gen_case(rng, tier, idx):
         from ..weather import make_event
         prof = dict(PROFILE, gw=0.0, sat_start_p=0.0, irr_methods=[0], custom_soil_p=0.0, events_per_year=0.5, n_seasons=[1, 2], sensible_planting_p=0.95,
                     iwc_kinds=["Pct"])
-        if rng.random() < 0.7:
+        if rng.random() < 0.85:
             # crops whose canopy-development window is at least twice the time they need to close the canopy: room to recover
             prof["crops"] = LONG_CANOPY_WINDOW_CROPS
         case = std_case(rng, prof)
@@ -141,6 +141,12 @@ def gen_case(rng, tier, idx):
                 t += rng.choice([2, 3, 4])
         spec["irr"] = {"method": 3, "kwargs": {"MaxIrr": 60}, "schedule": sched}
         case["controller"] = None
+        if rng.random() < 0.8:
+            # Notebook-2 pattern driven by state: a grower who starts a constant daily application (IrrMngt.depth) a few days
+            # after the canopy has visibly shrunk below its initial size, i.e. re-watering lands wherever the stress really bit
+            spec["irr"] = {"method": 5, "kwargs": {"depth": 0, "MaxIrr": 60}, "schedule": None}
+            case["reactive_controller"] = {"when": "canopy_below_initial_size", "delay": rng.choice([0, 1, 3, 6, 10]),
+                                           "depth": rng.choice([8, 12, 20, 30]), "days": rng.choice([20, 40, 200])}
         return case
     if idx % 4 == 3:
         # flooded basin whose management changes at harvest, off-season simulated: the day the other management takes over
@@ -219,12 +225,29 @@ def run_case(case):
         import re
         return re.sub(r"\[\d+\]", "[k]", name)
 
+    rc = case.get("reactive_controller")
+
     def controller(node, rec, ctx):
+        before = node.model._param_struct.IrrMngt.depth
         if ctrl is not None:
-            before = node.model._param_struct.IrrMngt.depth
             ctrl(node, rec, ctx)
-            if node.model._param_struct.IrrMngt.depth != before:
-                st["ctrl_wrote"] = True
+        if rc is not None:
+            m = node.model
+            k = int(m._clock_struct.season_counter)
+            if st.get("rc_season") != k:
+                st["rc_season"], st["rc_seen"], st["rc_on"] = k, None, None
+                if m._param_struct.IrrMngt.depth != 0:
+                    m._param_struct.IrrMngt.depth = 0.0
+            if k >= 0 and st["rc_seen"] is None and rec.growing and float(m._init_cond.cc0_adj) < float(m._param_struct.Seasonal_Crop_List[k].CC0) - 1e-12:
+                st["rc_seen"] = rec.t
+            if st["rc_seen"] is not None and st["rc_on"] is None and rec.t >= st["rc_seen"] + rc["delay"]:
+                m._param_struct.IrrMngt.depth = float(rc["depth"])
+                st["rc_on"] = rec.t
+                fired["reactive_controller_on"] = fired.get("reactive_controller_on", 0) + 1
+            elif st["rc_on"] is not None and rec.t >= st["rc_on"] + rc["days"] and m._param_struct.IrrMngt.depth != 0:
+                m._param_struct.IrrMngt.depth = 0.0
+        if node.model._param_struct.IrrMngt.depth != before:
+            st["ctrl_wrote"] = True
 
     def setup(node):
         node.pre_day_hooks.append(pre_day)
